@@ -4,8 +4,8 @@ Correspondence of Model/Names.v (+ Base/Like.v) with the mailbox handlers of
 /repo and judgement of the implementation's observed behaviour by Spec/Names.v.
 
 Suites
-  like    : SQLite's LIKE (the library linked into raven) vs Base/Like.v, exhaustive
-            over |pattern|+|name| <= L on the alphabet {a,B,_,%,/}
+  (the exhaustive SQLite-LIKE suite was retired with the fix of the child query: the handlers no
+   longer use LIKE; like_suite() is kept for replaying the old behaviour by hand)
   names   : histories of CREATE/DELETE/RENAME/SUBSCRIBE/UNSUBSCRIBE/APPEND/STATUS/SELECT/
             LIST/LSUB over an alphabet of colliding names, atoms and quoted forms; after
             every command the store is dumped; every step (state before, command, state
@@ -19,7 +19,7 @@ import os
 import re
 import common as C
 
-CLS = [None, "quoted_space", "quoted_escape", "like_wildcard", "like_case", "rename_into_child",
+CLS = [None, "quoted_space", "quoted_escape", "retired_like_wildcard", "retired_like_case", "rename_into_child",
        "rename_leading_slash", "rename_partial", "inbox_rename_orphan", "protected_case",
        "inbox_twin", "roles_shadow", "lsub_persists", "lsub_adds_inbox"]
 
@@ -29,7 +29,9 @@ KINDS = {"CREATE": "CCreate", "DELETE": "CDelete", "RENAME": "CRename", "SUBSCRI
 
 # names without any colliding feature: no LIKE wildcard, no case twins, no blanks/quotes
 CLEAN = ["Work", "Work/sub", "Work/sub/deep/er", "archive", "archive/2024", "b", "b/c", "b/c/d/e",
-         "p.q", "p-q", "z", "lists/dev", "lists/dev/null", "k/", "x]y", "Spam/old", "INBOX/in", "Trash/t"]
+         "p.q", "p-q", "z", "lists/dev", "lists/dev/null", "k/", "x]y", "Spam/old", "INBOX/in", "Trash/t",
+         # bytes next to '/' (0x2f): '.' and '0' are the edges of db.childNameRange
+         "Work0", "Work.", "Work0/x", "b0", "b.c", "b/"]
 # names built to collide
 DIRTY = ["a_b", "axb", "axb/child", "a_b/k", "foo", "FOO", "FOO/kid", "foo/kid", "a%", "ab", "abc/d",
          "My Folder", "My", "q\"uote", "back\\slash", "Inbox/sub", "inbox", "INBOX", "Inbox", "sent", "Sent",
@@ -383,8 +385,7 @@ def run(chk):
         if d.get("class") and k < len(cl):
             if (cl[k] & 2) and CLS[(cl[k] >> 2) & 15] == d["class"]:
                 chk.notes.append("corpus witness %s: the implementation now satisfies the spec at the recorded step" % os.path.basename(f))
-    # 2. LIKE
-    nlike = like_suite(chk)
+    nlike = 0
     # 3. generated histories
     quick = chk.tier == "quick"
     n_clean, n_mixed, n_bad, n_na = (70, 60, 12, 6) if quick else (700, 700, 80, 30)
@@ -411,7 +412,7 @@ def run(chk):
     chk.cov["model_differs_inside_class_informational"] = stats["model_diff_in_class"]
     chk.cov["distinct_nontrivial"] = len(distinct)
     chk.cov["rule"] = ("one evaluation = one observed step (store dump before, command line, store dump after, tagged result, names shown) judged inside Coq by "
-                       "judge_trace (model run_cmd exact incl. row order, uid and message links; spec_step as sets; classify; valid_cmd), plus the exhaustive LIKE pairs; "
+                       "judge_trace (model run_cmd exact incl. row order, uid and message links; spec_step as sets; classify; valid_cmd), "
                        "distinct non-trivial = distinct (set of names before, state-changing command) pairs whose command succeeded")
     chk.cov["traces_validated_against_impl"] = len(items)
     chk.cov["disagreements_checked"] = stats["disagreements"]
